@@ -204,3 +204,22 @@ def strip_casts(fn, ref):
 
 def is_const(e):
     return isinstance(e, tuple) and e[0] == "c" and isinstance(e[1], int)
+
+
+def reaching_store(fn, pexpr, at):
+    """the unique store to address `pexpr` that reaches instruction `at` on every path (latest dominating
+    store with no other store to the same address in between), or None"""
+    stores = [i for i in fn.all_insts() if i.op == "store" and expr(fn, i["ptr"]) == pexpr]
+    doms = [s for s in stores if fn.dom(s, at) and s is not at]
+    if not doms:
+        return None
+    latest = doms[0]
+    for s in doms[1:]:
+        if fn.dom(latest, s):
+            latest = s
+    for s in stores:
+        if s is latest or s is at:
+            continue
+        if fn.reaches(latest, s) and fn.reaches(s, at) and not fn.dom(s, latest):
+            return None
+    return latest
